@@ -197,7 +197,8 @@ fn judge_reader(set: &Set, fmt: Fmt, comp: Comp, target: Target, qs: &[Coord], r
 			}
 		}
 	}
-	None
+	// bulk path of the reader on the writer's output (get_bbox_tile_stream; boxes chosen by c16::stream_boxes)
+	crate::c16::judge_streams(&set.tiles, &o.streams)
 }
 
 fn judge_indep(set: &Set, fmt: Fmt, comp: Comp, target: Target, d: Result<Decoded, String>, counts: &mut Vec<String>) -> Option<(&'static str, String)> {
